@@ -11,6 +11,8 @@
   terms of the latter: the caller's register file starts with `sp ↦ cfa`, `ip ↦ ra`.
 -/
 import MdProofs.Lemmas.CfiBridgeParse
+import MdProofs.C06
+import MdProofs.C08
 namespace MdModel.CfiBridge
 open MdModel
 
@@ -440,5 +442,191 @@ theorem walkCfi_core (x : Walk.CfiIn) (W : Cfi.Walker) (h : WalkerSim x W) (o0 :
                   · left
                     have : (cfa.toNat > x.arch.regMax ∨ ra.toNat > x.arch.regMax) := by omega
                     simp [hf1, this]
+
+
+/-- the C06 `Walker` whose caller register file starts with `sp ↦ cfa`, `ip ↦ ra` -/
+def seeded (a : Walk.Arch) (W : Cfi.Walker) (cfa ra : UInt64) : Cfi.Walker :=
+  { W with fwd := seedFwd a W.fwd cfa ra }
+
+theorem mem_sorted_wf {rs : List (Walk.CfiReg × List Walk.ETok)} (hwf : ∀ p ∈ rs, ∀ t ∈ p.2, ETokWf t) :
+    ∀ p ∈ (Walk.otherRules rs).mergeSort (fun p q => Walk.strLe p.1 q.1), ∀ t ∈ p.2, ETokWf t :=
+  fun p hp => otherRules_wf hwf p (List.mem_mergeSort.mp hp)
+
+/-- **`walkCfi ≙ walkCfi`.** For related walkers, on every INIT text and every list of delta
+    texts: the two models fail together; when they succeed, the C06 model's CFA and return address
+    are the values the walker model stored in the stack pointer and the instruction pointer
+    before the remaining rules ran, and — running the C06 model with those two stored as registers
+    (`seeded`) — every caller register is valid with the same value, or unknown, on both sides
+    (at `sp`, `ip`, and at every register on which the initial states agreed). -/
+theorem walkCfi_bridge (x : Walk.CfiIn) (W : Cfi.Walker) (h : WalkerSim x W) (o0 : Walk.CfiOut)
+    (init : String) (adds : List String) :
+    match Cfi.walkCfi W ((init :: adds).map utf8) with
+    | none => Walk.walkCfi x o0 init adds = none
+    | some c =>
+      ∃ cfa ra o c', c.cfa = some cfa ∧ c.ra = some ra ∧
+        Walk.walkCfi x o0 init adds = some o ∧
+        Cfi.walkCfi (seeded x.arch W cfa ra) ((init :: adds).map utf8) = some c' ∧
+        c'.cfa = some cfa ∧ c'.ra = some ra ∧
+        ∀ s, (s = x.arch.spName ∨ s = x.arch.ipName ∨ OutSimAt x.arch o0 W.caller0 s) →
+          OutSimAt x.arch o c' s := by
+  rcases walkCfi_core x W h o0 init adds with ⟨hc, hw⟩ | ⟨m, cfaE, raE, cfa, ra, rs, hm, hcfaE, hraE, he1, he2, hf1, hf2, hrel, hw⟩
+  · rw [hc]; exact hw
+  · have hC : Cfi.walkCfi W ((init :: adds).map utf8) = some _ :=
+      (Cfi.walkCfi_some_iff W _ _).mpr ⟨m, cfaE, raE, cfa, ra, hm, hcfaE, hraE, he1, he2, hf1, hf2, rfl⟩
+    have hC' : Cfi.walkCfi (seeded x.arch W cfa ra) ((init :: adds).map utf8) = some _ :=
+      (Cfi.walkCfi_some_iff (seeded x.arch W cfa ra) _ _).mpr
+        ⟨m, cfaE, raE, cfa, ra, hm, hcfaE, hraE, he1, he2, hf1, hf2, rfl⟩
+    rw [hC]
+    refine ⟨cfa, ra, _, _, ?_, ?_, hw, hC', ?_, ?_, ?_⟩
+    · exact (Cfi.foldl_applyOther_cfa_ra W cfa _ _).1
+    · exact (Cfi.foldl_applyOther_cfa_ra W cfa _ _).2
+    · exact (Cfi.foldl_applyOther_cfa_ra _ cfa _ _).1
+    · exact (Cfi.foldl_applyOther_cfa_ra _ cfa _ _).2
+    · intro s hs
+      have hW' : WalkerSim x (seeded x.arch W cfa ra) := h.withFwd _
+      refine fold_sim x _ hW' cfa s _ _ _ _ (others_sorted_eq hrel) (mem_sorted_wf hrel.wf) ?_
+      exact seed_sim x.arch o0 W.fwd cfa ra s hs
+
+/-! ## `SymbolFile::walk_frame`: INIT + the deltas at or below the lookup address -/
+
+/-- the walker model's record, as the C06 model's (texts as UTF-8 bytes) -/
+def recOf (r : Walk.CfiRec) : Cfi.CfiRec :=
+  ⟨r.addr, r.size, utf8 r.init, r.adds.map fun p => (p.1, utf8 p.2)⟩
+
+/-- the delta texts the walker model selects for module-relative address `a` -/
+def selOf (r : Walk.CfiRec) (a : Nat) : List String :=
+  ((r.adds.mergeSort Walk.addLe).takeWhile fun p => p.1 ≤ a).map (·.2)
+
+def gAdd (p : Nat × String) : Nat × Cfi.Bytes := (p.1, utf8 p.2)
+
+theorem ruleLe_gAdd (p q : Nat × String) : Cfi.ruleLe (gAdd p) (gAdd q) = Walk.addLe p q := by
+  simp only [Cfi.ruleLe, Walk.addLe, gAdd, strLe_enc]
+  rfl
+
+theorem ruleLe_antisymm (a b : Nat × Cfi.Bytes) (h1 : Cfi.ruleLe a b = true) (h2 : Cfi.ruleLe b a = true) : a = b := by
+  unfold Cfi.ruleLe at h1 h2
+  simp only [Bool.or_eq_true, decide_eq_true_eq, Bool.and_eq_true, beq_iff_eq] at h1 h2
+  obtain ⟨a1, a2⟩ := a
+  obtain ⟨b1, b2⟩ := b
+  simp only at h1 h2
+  rcases h1 with h1 | ⟨h1, h1'⟩
+  · rcases h2 with h2 | ⟨h2, _⟩ <;> omega
+  · rcases h2 with h2 | ⟨_, h2'⟩
+    · omega
+    · rw [h1, Cfi.bytesLe_antisymm _ _ h1' h2']
+
+/-- **`add_rules.sort()`**: insertion sort by (address, bytes) = merge sort by (address, `String`) -/
+theorem sortAdds_map (adds : List (Nat × String)) :
+    Cfi.sortAdds (adds.map gAdd) = (adds.mergeSort Walk.addLe).map gAdd := by
+  unfold Cfi.sortAdds
+  apply List.Perm.eq_of_pairwise (le := fun a b => Cfi.ruleLe a b = true)
+  · intro a b _ _ h1 h2; exact ruleLe_antisymm a b h1 h2
+  · exact Cfi.sortBy_pairwise _ Cfi.ruleLe_total Cfi.ruleLe_trans _
+  · rw [List.pairwise_map]
+    have hs := List.pairwise_mergeSort (le := Walk.addLe)
+      (fun a b c h1 h2 => by
+        rw [← ruleLe_gAdd] at h1 h2 ⊢; exact Cfi.ruleLe_trans _ _ _ h1 h2)
+      (fun a b => by
+        rw [← ruleLe_gAdd, ← ruleLe_gAdd, Bool.or_eq_true]; exact Cfi.ruleLe_total _ _)
+      adds
+    exact hs.imp (fun {a b} hab => by rw [ruleLe_gAdd]; exact hab)
+  · exact (Cfi.sortBy_perm _ _).trans ((List.mergeSort_perm _ _).map _).symm
+
+/-- **rule selection**: the lines the C06 model hands to `walk_with_stack_cfi` for a record and an
+    address are the UTF-8 bytes of the lines the walker model hands over -/
+theorem linesAt_recOf (r : Walk.CfiRec) (a : Nat) :
+    Cfi.linesAt (recOf r) a = (r.init :: selOf r a).map utf8 := by
+  unfold Cfi.linesAt Cfi.selectAdds recOf selOf
+  have : (r.adds.map fun p => (p.1, utf8 p.2)) = r.adds.map gAdd := rfl
+  simp only [this, sortAdds_map, List.map_cons, List.cons.injEq, true_and, List.takeWhile_map, List.map_map]
+  rfl
+
+theorem mkRange_spec' {b s : Nat} {r : RangeMap.Rng} (h : RangeMap.mkRange b s = some r) :
+    r.lo = b ∧ r.hi = b + s - 1 ∧ 0 < s ∧ b + s ≤ U64MAX := by
+  unfold RangeMap.mkRange at h
+  split at h
+  · cases h
+  · split at h
+    · cases h
+    · cases h; exact ⟨rfl, rfl, by omega, by omega⟩
+
+/-- C08 → here: the record the walker's CFI table returns for an address covers that address in
+    the C06 model's sense (`StackInfoCfi::memory_range().contains(addr)`) -/
+theorem covers_of_cfiTable (sf : Walk.SymFile) (a i : Nat) (rec : Walk.CfiRec)
+    (hget : RangeMap.get (Walk.cfiTable sf) a = some i) (hrec : sf.cfis[i]? = some rec) :
+    (recOf rec).covers a = true := by
+  unfold Walk.cfiTable at hget
+  obtain ⟨r, hmem, hlo, hhi⟩ := RangeMap.getP_sound _ a i hget
+  obtain ⟨q, hq, hqr⟩ := List.mem_filterMap.mp hmem
+  obtain ⟨c, j⟩ := q
+  simp only [Option.map_eq_some_iff, Prod.mk.injEq] at hqr
+  obtain ⟨r', hr', rfl, rfl⟩ := hqr
+  have hc : sf.cfis[j]? = some c := by
+    have := List.mem_zipIdx_iff_getElem?.mp hq
+    simpa using this
+  rw [hc] at hrec
+  cases hrec
+  obtain ⟨h1, h2, h3, h4⟩ := mkRange_spec' hr'
+  simp only [Cfi.CfiRec.covers, recOf, Bool.and_eq_true, bne_iff_ne, ne_eq]
+  refine ⟨⟨⟨?_, decide_eq_true ?_⟩, decide_eq_true ?_⟩, decide_eq_true ?_⟩ <;> omega
+
+/-- the two models' `walk_frame` reduce to their `walk_with_stack_cfi` on corresponding lines -/
+theorem walkFrame_reduce (sf : Walk.SymFile) (modBase : Nat) (x : Walk.CfiIn) (o : Walk.CfiOut)
+    (W : Cfi.Walker) (i : Nat) (rec : Walk.CfiRec) (hge : ¬ W.instr < modBase)
+    (hget : RangeMap.get (Walk.cfiTable sf) (W.instr - modBase) = some i) (hrec : sf.cfis[i]? = some rec) :
+    Walk.walkFrameCfi sf (Walk.cfiTable sf) modBase x o W.instr =
+        Walk.walkCfi x o rec.init (selOf rec (W.instr - modBase)) ∧
+    Cfi.walkFrame (recOf rec) modBase W =
+        Cfi.walkCfi W ((rec.init :: selOf rec (W.instr - modBase)).map utf8) := by
+  constructor
+  · unfold Walk.walkFrameCfi
+    simp only [hge, if_false, hget, hrec]
+    rfl
+  · unfold Cfi.walkFrame
+    simp only [hge, if_false, covers_of_cfiTable sf _ i rec hget hrec, if_true, linesAt_recOf]
+
+/-- **`walkFrameCfi ≙ walkFrame`.** With the walker model's own CFI table (`cfiTable sf`, C08's
+    range map): below the module base, or when no record covers the address, the walker model
+    finds no caller; when the table yields record `rec`, the walker model's `walk_frame` and the
+    C06 model's on `recOf rec` are related exactly as in `walkCfi_bridge`. -/
+theorem walkFrame_bridge (sf : Walk.SymFile) (modBase : Nat) (x : Walk.CfiIn) (o0 : Walk.CfiOut)
+    (W : Cfi.Walker) (h : WalkerSim x W) :
+    (W.instr < modBase → Walk.walkFrameCfi sf (Walk.cfiTable sf) modBase x o0 W.instr = none ∧
+        ∀ r, Cfi.walkFrame r modBase W = none) ∧
+    (RangeMap.get (Walk.cfiTable sf) (W.instr - modBase) = none →
+        Walk.walkFrameCfi sf (Walk.cfiTable sf) modBase x o0 W.instr = none) ∧
+    (∀ i rec, ¬ W.instr < modBase → RangeMap.get (Walk.cfiTable sf) (W.instr - modBase) = some i →
+        sf.cfis[i]? = some rec →
+        match Cfi.walkFrame (recOf rec) modBase W with
+        | none => Walk.walkFrameCfi sf (Walk.cfiTable sf) modBase x o0 W.instr = none
+        | some c =>
+          ∃ cfa ra o c', c.cfa = some cfa ∧ c.ra = some ra ∧
+            Walk.walkFrameCfi sf (Walk.cfiTable sf) modBase x o0 W.instr = some o ∧
+            Cfi.walkFrame (recOf rec) modBase (seeded x.arch W cfa ra) = some c' ∧
+            c'.cfa = some cfa ∧ c'.ra = some ra ∧
+            ∀ s, (s = x.arch.spName ∨ s = x.arch.ipName ∨ OutSimAt x.arch o0 W.caller0 s) →
+              OutSimAt x.arch o c' s) := by
+  refine ⟨?_, ?_, ?_⟩
+  · intro hlt
+    constructor
+    · unfold Walk.walkFrameCfi; simp [hlt]
+    · intro r; unfold Cfi.walkFrame; simp [hlt]
+  · intro hnone
+    unfold Walk.walkFrameCfi
+    by_cases hlt : W.instr < modBase
+    · simp [hlt]
+    · simp [hlt, hnone]
+  · intro i rec hge hget hrec
+    obtain ⟨hw, hc⟩ := walkFrame_reduce sf modBase x o0 W i rec hge hget hrec
+    rw [hw, hc]
+    have hb := walkCfi_bridge x W h o0 rec.init (selOf rec (W.instr - modBase))
+    cases hres : Cfi.walkCfi W ((rec.init :: selOf rec (W.instr - modBase)).map utf8) with
+    | none => rw [hres] at hb; exact hb
+    | some c =>
+      rw [hres] at hb
+      obtain ⟨cfa, ra, o, c', h1, h2, h3, h4, h5, h6, h7⟩ := hb
+      refine ⟨cfa, ra, o, c', h1, h2, h3, ?_, h5, h6, h7⟩
+      have := (walkFrame_reduce sf modBase x o0 (seeded x.arch W cfa ra) i rec hge hget hrec).2
+      rw [this]; exact h4
 
 end MdModel.CfiBridge
